@@ -346,6 +346,46 @@ let embed_mode path var =
    | Some v -> Printf.eprintf "constant_value_bytes=%d\n" (List.length v)
    | None -> Printf.eprintf "constant_value=none\n")
 
+(* -pool FILE: lines "t op args | ..." (as printed by the host driver's -pooltest); replays the steps on the
+   model (Pool.step, the pool's choice taken from the op's argument) and prints what each of the three parsers
+   observes after every step in the host driver's format; SPECDIFF if Pool.view and the one-parser spec differ *)
+let pool_mode path =
+  let ic = open_in path in
+  let show_map (m : (n * n) list) =
+    let l = List.sort compare (List.map (fun (k, v) -> (int_of_n k, int_of_n v)) m) in
+    "{" ^ String.concat "," (List.map (fun (k, v) -> Printf.sprintf "%d=%d" k v) l) ^ "}" in
+  let show_view = function
+    | None -> "none"
+    | Some s -> show_map s.scur ^ "[" ^ String.concat "" (List.map show_map s.ssaved) ^ "]" in
+  let w = ref Model.init in
+  let spec = Array.make 3 None in
+  (try
+     while true do
+       let line = input_line ic in
+       if line <> "nostate" then begin
+         let head = (match String.index_opt line '|' with Some i -> String.sub line 0 i | None -> line) in
+         let toks = List.filter (fun x -> x <> "") (String.split_on_char ' ' head) in
+         let t = int_of_string (List.hd toks) in
+         let o = (match List.tl toks with
+           | ["start"] -> OStart
+           | ["set"; k; v] -> OSet (n_of_int (int_of_string k), n_of_int (int_of_string v))
+           | ["clone"; i] -> let i = int_of_string i in OClone (if i = 2 then None else Some (nat_of_int i))
+           | ["restore"] -> ORestore
+           | ["drop"] -> ODrop
+           | ["gc"; i] -> OGc (nat_of_int (int_of_string i))
+           | _ -> failwith ("bad pool op: " ^ head)) in
+         w := Model.step !w (nat_of_int t, o);
+         (match o with OGc _ -> () | _ -> spec.(t) <- sstep spec.(t) o);
+         let views = List.init 3 (fun j -> Model.view !w (nat_of_int j)) in
+         let ok = List.for_all2 (fun v j -> v = spec.(j)) views [0; 1; 2] in
+         Printf.printf "%s|%s%s\n" head
+           (String.concat "" (List.mapi (fun j v -> Printf.sprintf " t%d=%s" j (show_view v)) views))
+           (if ok then "" else " SPECDIFF")
+       end
+     done
+   with End_of_file -> ());
+  close_in ic
+
 (* ---------- front-end AST (Gen model) ---------- *)
 let rec aexpr_of = function
   | L [A "lit"; v; ic] -> ALit (hexb v, bool_a ic)
@@ -438,12 +478,13 @@ let bl_mode path =
   close_in ic
 
 let () =
-  let tables = ref "" and cases = ref "" and fuel = ref 4000 and dec = ref "" and bl = ref "" and prep = ref "" and cls = ref "" and emb = ref "" and var = ref "staticCode" in
+  let tables = ref "" and cases = ref "" and fuel = ref 4000 and dec = ref "" and bl = ref "" and prep = ref "" and cls = ref "" and emb = ref "" and var = ref "staticCode" and poolf = ref "" in
   Arg.parse [ ("-tables", Arg.Set_string tables, "unicode tables file");
               ("-cases", Arg.Set_string cases, "case file");
               ("-pq", Arg.String set_pq, "analysis quirks, 2 bits: nullable_inner pred_first (default 01 = current tree: nullable_inner repaired by fix 46465c9)");
               ("-prep", Arg.Set_string prep, "file of grammars: PrepareGrammar model over all iteration orders + LRSpec");
               ("-cls", Arg.Set_string cls, "file of hex class texts: the model of ast.CharClassMatcher.parse under both escape settings");
+              ("-pool", Arg.Set_string poolf, "file of state-store steps: replay on the Pool model and print the views");
               ("-embed", Arg.Set_string emb, "source file: print the file static_code_generator writes for it (model)");
               ("-var", Arg.Set_string var, "variable name for -embed");
               ("-bl", Arg.Set_string bl, "file of classes: print Basic-Latin tables of the model");
@@ -454,6 +495,7 @@ let () =
   if !dec <> "" then (decode_mode !dec; exit 0);
   if !cls <> "" then (cls_mode !cls; exit 0);
   if !emb <> "" then (embed_mode !emb !var; exit 0);
+  if !poolf <> "" then (pool_mode !poolf; exit 0);
   if !tables <> "" then load_tables !tables;
   if !bl <> "" then (bl_mode !bl; exit 0);
   if !prep <> "" then (Random.init 7; prep_mode !prep; exit 0);
